@@ -869,6 +869,11 @@ func main() {
 		}
 		runExpRanges(out, rs, genObs(r, maxes, 1+r.Intn(10)))
 	}
+	cd := 400 * time.Millisecond
+	if a.Thorough() {
+		cd = 5 * time.Second
+	}
+	concurrentObserve(out, cd)
 	out.Flush("decl: boundary lists of length 0-6 and long ones of 11-40 (with an observation exactly at, just below and just above every boundary, on the datum, through the exposition and through the store API) (negative, zero, -0, denormal, adjacent floats, unsorted, NaN/Inf) through the real code generator, non-trivial when accepted; obs: sequences of 1-14 observations at/just below/just above every bound plus negatives, infinities and NaN on a real Buckets datum, non-trivial when >= 2 observations include a value equal to a bound or a non-finite value; exp: program text compiled, observed and scraped through a prometheus registry, non-trivial when >= 2 observations; expr: the same for a metric whose ranges are given to the store API ascending, descending or shuffled (+Inf anywhere or appended by MakeBuckets)", false)
 }
 
